@@ -40,7 +40,10 @@ RULE = ('(a) All ordered pairs of the known protocol numbers (369 on the '
         'mid-list at two fixed anchors, initglobals(True), initglobals(False), '
         'add an entry to SUPPORTED_MINECRAFT_VERSIONS then initglobals()}; '
         'states deduplicated on (records, contents of the seven derived '
-        'tables); every re-initialisation is judged (a history is judged at '
+        'tables); every re-initialisation is judged, and repeated once to '
+        'see that nothing changes when it ends a history of <= 4 actions '
+        '(longer ones: only through histories ending init, init, which are '
+        'judged against the projection); a history is judged at '
         'its last step, so the last level only applies the three '
         're-initialising actions); the search stops at the first level that '
         'contains a violation.  A history is non-trivial when it contains an '
@@ -58,6 +61,9 @@ ASSUMPTIONS = [
     'pair results observed from the real predicates (predicates are pure '
     'functions of the index table); real-call triples cover the stated '
     'subset; the thorough tier makes the real calls for all triples',
+    'the module state that matters to initglobals is the record list and '
+    'the seven containers (these are what is snapshotted, restored in place '
+    'and used, through a 64-bit value hash, to identify a state)',
 ]
 
 PRE = 1 << 30
@@ -71,6 +77,7 @@ TABLES = ('KNOWN_MINECRAFT_VERSIONS', 'KNOWN_PROTOCOL_VERSIONS',
           'RELEASE_PROTOCOL_VERSIONS')
 T_IDX = dict((n, i + 1) for i, n in enumerate(TABLES))   # slot in a snapshot
 UNORDERED = ('PROTOCOL_VERSION_INDICES',)   # a plain map: order is not judged
+TWICE_UP_TO = 4           # explicit second initglobals call after histories <= 4
 MAX_PER_TASK = 3          # violations recorded per triple task (all counted)
 
 
@@ -888,7 +895,7 @@ def first_ranks_fast(records):
     return order, rank, howmany
 
 
-def judge_init(e, P, name, before):
+def judge_init(e, P, name, before, twice=True):
     """Failures [(label, text)] of one re-initialisation just performed;
     leaves the module in the state reached by the FIRST call."""
     fails = []
@@ -918,6 +925,8 @@ def judge_init(e, P, name, before):
         pf, n_nums = predicates_after(e, P, list(snap[0]))
         fails += pf
     # idempotence: the same call once more changes nothing
+    if not twice:
+        return fails, snap, n_nums
     try:
         call_init(e, 'initF' if name == 'edit+init' else name)
         again = e.snapshot()
@@ -955,7 +964,10 @@ def step(ctx, e, P, hist, name, judge=True):
                       % (list(hist), type(x).__name__, x), case)
         ctx.outcome('%s raises' % name)
         return True, None
-    fails, snap, n_nums = judge_init(e, P, name, before)
+    twice = len(full) <= TWICE_UP_TO
+    fails, snap, n_nums = judge_init(e, P, name, before, twice)
+    if twice:
+        ctx.cls('re-initialisations repeated for idempotence')
     ctx.count()
     ctx.traces += 1
     if any(a not in ('initT', 'initF') for a in full[:-1]) or \
